@@ -17,5 +17,5 @@ INVARIANT M1_UndecodableMalformed
 INVARIANT M2_UndecodableNegativeMalformed
 INVARIANT U1_NegativeNeverMismatch
 INVARIANT U2_RightEchoNeverMismatch
-PROPERTY Terminates
+INVARIANT Progress
 CHECK_DEADLOCK FALSE
